@@ -10,6 +10,7 @@ import BridgeVerif.Driver.Session
 import BridgeVerif.Driver.Json
 import BridgeVerif.Driver.Pbn
 import BridgeVerif.Driver.Admission
+import BridgeVerif.Driver.PyCore
 /-! The line-protocol driver: one op per line in, one canonical line out. -/
 namespace Bridge.Driver
 
@@ -67,6 +68,8 @@ def step (s : DState) (line : String) : DState × String :=
       (s, (msgOps t).getD "bad-op")
     else if op.startsWith "G." then
       (s, ((admissionOps t).orElse fun _ => admissionLoopOps t).getD "bad-op")
+    else if op.startsWith "Y." then
+      (s, (pyOps t).getD "bad-op")
     else if op.startsWith "H." then
       (s, (handsOps t).getD "bad-op")
     else if op.startsWith "N." then
